@@ -186,7 +186,6 @@ func gsxC12DupSubExpr() {
 	gsxrt.Assert(kind <= 4, "claim: operands reported as identical contain a call or a channel receive (two evaluations need not give the same value)")
 }
 
-
 // gsxC12NilValReturn: when nilValReturn reports "returned expr is always nil"
 // for `if e == N { return e }`, then e really is nil at the return: e is a
 // pure expression (a second evaluation gives the same value) and N is the
